@@ -3249,6 +3249,10 @@ public:
           operator-=(x);
           assert(!is_bottom());
           m_vert_map.insert(vmap_elt_t(x, {v, w}));
+        } else {
+          // No octagon constraint can be extracted from the
+          // assignment: the old value of x must still be forgotten.
+          set(x, x_int);
         }
       }
     }
